@@ -61,6 +61,11 @@ func runC20(c *Ctx) {
 		time.Sleep(20 * time.Millisecond)
 		goroutines0 := runtime.NumGoroutine()
 		sessions0 := len(w.Eng.OpenTxns())
+		// a slow server now and then: the asynchronous commit worker is held up on an undo-log delete while
+		// further phase-two commits keep arriving (its collecting buffer and hand-over queue are in use at once)
+		for k := 0; k < 4; k++ {
+			w.Eng.AddFault(memdb.Fault{Kind: "delete", Table: "undo_log", Nth: 2 + 5*k, Delay: 25 * time.Millisecond})
+		}
 		var wg sync.WaitGroup
 		var txDone, txErr int64
 		stop := make(chan struct{})
@@ -190,6 +195,7 @@ func runC20(c *Ctx) {
 			terminated = false
 		}
 		close(stop)
+		w.Eng.ClearFaults()
 		// ---- quiescence and leaks
 		time.Sleep(300 * time.Millisecond)
 		var goroutines1 int
